@@ -10,9 +10,16 @@ monitor on the implementation's lines: every dual read equals what the primary a
 primary exactly once, and its result is exactly what the primary answered (`pans=`) — the primary's
 listing / ok, or the primary's ERROR when an injected primary fault (`popfail <Method> once|always`)
 fires, never the replica's listing — also checked against the monitor's own bookkeeping of the
-two buckets and the pending faults.  `restore` scenario: the real PartitionLog.RestoreFromS3 over
+two buckets and the pending faults.  Failed reads are compared by error CLASS too (`cls=`/`pcls=`: errors.Is(err, storage.ErrNotFound) of the
+dual answer and of the primary's own answer; both sides failing is generated).  `slow` scenario: replicas stalling 50 ms … 12 s under a 30 s
+caller deadline, with and without the source's timeout knobs set small.  `restore` scenario: the real PartitionLog.RestoreFromS3 over
 the dual client with a lagging replica and a transient / persistent primary List fault.
 """
+import glob
+import os
+import re
+import threading
+
 from checks import lib
 
 PROPERTY = "C44"
@@ -40,6 +47,11 @@ OBLIGATIONS = [
     "KafVerif.C44.writes_lists_independent_of_replica",
     "KafVerif.C44.replica_read_only",
     "KafVerif.C44.read_your_write",
+    "KafVerif.C44.classified_reads_refine",              # reads with error class erase to dualReadSeg / dualReadIdx
+    "KafVerif.C44.read_error_class_is_primarys",         # replica does not deliver => dual answer incl. error class = the primary's
+    "KafVerif.C44.failed_dual_read_has_primarys_class",  # no hypothesis: a failing dual read has the primary's error class
+    "KafVerif.C44.restore_decision_is_primarys",         # keep / skip-as-orphan / abort decided as on the primary
+    "KafVerif.C44.joined_error_violates",                # witness: joining replica + primary errors turns a transient failure into not-found
     "KafVerif.C44.stale_overwrite_violates",
     "KafVerif.C44.stale_delete_violates",
     "KafVerif.C44.full_statement_false",
@@ -57,11 +69,14 @@ ASSUMPTIONS = [
     "different end, gated inside the primary fake so that they overlap), each compared with the primary's bytes for its own range",
     "time is not modelled: a replica that is slow to answer counts as answering, one that is slow to fail / hangs and then fails counts as "
     "failing; validated by `rmode slowok|slowfail|hang` ops on context-aware fakes (they return ctx.Err() once the context is done) and by the "
-    "`slow` scenario (replica stalls 2.5 s, caller deadline 20 s: the caller must still get the primary's bytes)",
+    "`slow` scenario (replica stalls 50 ms / 2.5 s / 6 s / 12 s, caller deadline 30 s, and 20 ms … 3 s with every KAFSCALE_S3_*TIMEOUT* knob of "
+    "the current source set to 100: the caller must still get the primary's bytes); a replica that hangs until the caller's own deadline is not generated",
+    "error classes: two classes (errors.Is(err, storage.ErrNotFound) or not); a backend answers not-found for a missing object (segment and "
+    "index, like the AWS client), an injected fault / bad range / context error is 'other'",
 ]
 TECHNIQUE = "Lean 4: writes/listings = the primary's answer incl. its error for every state, and non-interference (no write/list answer and no primary state depends on replica events) by induction over all histories with faults; invariant (replica holds only current versions) by induction over all replication-safe histories => dual read = primary read for every key/range/fault set; witness theorems for the lagging-overwrite/delete case; differential correspondence + monitor on the real dualS3Client inside the broker binary"
 LEVEL_TEXT = ("proof (partial): writes_primary / list_primary / list_never_replica / write_error_propagates / writes_lists_independent_of_replica / "
-              "replica_read_only are full strength for every state and history incl. faulty primaries; reads_match_safe_history / read_seg_match / "
+              "replica_read_only / read_error_class_is_primarys are full strength for every state and history incl. faulty primaries; reads_match_safe_history / read_seg_match / "
               "read_idx_match are full strength for histories in which the primary never changes or deletes an object the replica already holds; the unrestricted statement is false "
               "(stale_overwrite_violates, stale_delete_violates, full_statement_false)")
 LEVEL_NOTE = "correspondence and monitors are testing; they tie the model to the current source"
@@ -246,7 +261,23 @@ def gen_history(rng, n, safe):
         elif r < 61:
             ops += gen_primary_fault(rng, sim, safe)
             continue
-        elif r < 62:
+        elif r < 64:
+            # both reads fail: the replica lags on a fresh object (not found there) or fails, the primary's read fails transiently
+            kk = rng.choice([x for x in range(NKEYS) if x not in sim.rep[kind]] or [k])
+            blk = []
+            if kk not in sim.pri[kind] and rng.chance(3, 4):
+                blk.append("up%s %d %s" % (kind, kk, body(rng) or "0b"))
+            if rng.chance(1, 4):
+                blk.append("rfail %d 1" % kk)
+            blk += ["pfail %d 1" % kk, "rdidx %d" % kk if kind == "idx" else "rdseg %d" % kk]
+            if rng.chance(1, 2):
+                blk.append("rdseg %d" % kk if kind == "idx" else "rdidx %d" % kk)
+            blk += ["pfail %d 0" % kk, "rdidx %d" % kk if kind == "idx" else "rdseg %d" % kk]
+            for op in blk:
+                ops.append(op)
+                sim.apply(op.split())
+            continue
+        elif r < 65:
             op = "ropfail %s %s" % (rng.choice(sorted(METHOD_OP)), rng.choice(["once", "always", "none", "none"]))
         elif r < 82:
             if kind == "idx":
@@ -329,6 +360,17 @@ def monitor(ops, out):
             kind = "seg" if f[0] == "rdseg" else "idx"
             res = o.split(" calls=")[0].replace(" ", ":")
             pri = kv.get("pri")
+            # the error CLASS (errors.Is(err, storage.ErrNotFound): RestoreFromS3 skips a segment as orphaned on it) of a failed
+            # dual read is the class of the primary's own answer — also, and above all, when the primary's read fails too
+            cls, pcls = kv.get("cls"), kv.get("pcls")
+            if cls is None or pcls is None:
+                bad.append((i, "read-line-without-error-class", "%r -> %s" % (op, o[:120])))
+            elif res == "err" and pri == "err" and cls != pcls:
+                lagnf = " (the replica does not hold the object: its answer is not-found)" if k not in sim.rep[kind] and k not in sim.rfail else ""
+                bad.append((i, "dual-read-error-class-differs-from-primary",
+                            "%r failed with error class %r (nf = errors.Is(err, storage.ErrNotFound)) but the primary's own answer to that read has class %r%s: "
+                            "a caller that branches on not-found (PartitionLog.RestoreFromS3: orphaned segment) decides differently than on the primary"
+                            % (op, cls, pcls, lagnf)))
             if k not in sim.pfail and res != pri:
                 if sim.stale(kind, k) and k not in sim.rfail:
                     what = ("replica holds an outdated copy of object %d (primary %s): dual read %s, primary %s" % (
@@ -356,11 +398,84 @@ def restore_violations(line):
                         "PartitionLog.RestoreFromS3 over the dual client, replica lags (replica alone: last offset %s), %s: restored last offset %s, "
                         "the primary holds up to %s (offsets would be assigned again)" % (kv.get("replica"), txt, kv.get(n), want)))
             break
+    if "d1" not in kv or kv.get("repcls") != "nf":
+        bad.append(("restore-scenario-lagging-index-not-set-up", "scenario setup: the replica should answer not-found for the second index: " + line))
+    else:
+        if kv.get("dcls") != kv.get("pcls"):
+            bad.append(("dual-read-error-class-differs-from-primary",
+                        "restore scenario: replica lags on the index of segment 5..%s (not found), the primary's read of it fails transiently: the dual "
+                        "DownloadIndex error has class %r, the primary's own error class %r" % (want, kv.get("dcls"), kv.get("pcls"))))
+        if kv.get("d1") != kv.get("pd1") and kv.get("d1") != want:
+            bad.append(("restore-drops-segment-after-transient-primary-index-error",
+                        "PartitionLog.RestoreFromS3 over the dual client, replica lags on the index of the last segment (not found there), the primary's "
+                        "read of that index fails transiently: restore returned %s (segment skipped as orphaned), the primary alone answers %s and holds "
+                        "up to %s (offsets would be assigned again)" % (kv.get("d1"), kv.get("pd1"), want)))
+        if kv.get("d2") != want:
+            bad.append(("restore-through-dual-differs-from-primary", "after the transient primary index fault cleared: restore through the dual "
+                        "client gives %s, primary alone %s" % (kv.get("d2"), want)))
     if kv.get("c") != want:
         bad.append(("restore-through-dual-differs-from-primary", "healthy primary: restore through the dual client gives %s, primary alone %s" % (kv.get("c"), want)))
     if kv.get("rbad") != "-":
         bad.append(("non-read-call-reached-replica", "restore scenario: calls %s reached the read replica" % kv.get("rbad")))
     return bad
+
+
+SLOW_KINDS = {"a": "slow to fail, range read", "b": "slow to fail, index (replica holds an equal copy)", "c": "hangs then fails",
+              "d": "slow to answer an equal copy"}
+
+
+def slow_violations(line, envs):
+    """`slow a50=<dual>/<primary> b50=… a2500=…`: whatever the replica does and however long it stalls, under a live caller context
+    the read returns what the primary holds"""
+    bad = []
+    for part in line.split()[1:]:
+        name, rest = part.split("=", 1)
+        res, pri = rest.split("/")
+        if res != pri:
+            bad.append(("slow-replica-read-does-not-fall-back-to-primary",
+                        "replica stalls %s ms (%s) under a 30 s caller deadline%s: dual read %s, the primary holds %s" % (
+                            name[1:], SLOW_KINDS.get(name[:1], name), " with " + ",".join("%s=%s" % kv for kv in sorted(envs.items())) if envs else "",
+                            res, pri)))
+            break
+    return bad
+
+
+def timeout_knobs():
+    """every KAFSCALE_S3_*TIMEOUT* environment variable the CURRENT cmd/broker source mentions (plus any KAFSCALE_* name in
+    s3_dual.go itself), regenerated at check time: set to 100 (ms) so that a replica-side timeout, if the source has one, fires early"""
+    names = set()
+    for fn in sorted(glob.glob(os.path.join(lib.REPO, "cmd", "broker", "*.go"))):
+        if fn.endswith("_test.go"):
+            continue
+        try:
+            src = open(fn, encoding="utf8", errors="replace").read()
+        except OSError:
+            continue
+        names.update(re.findall(r'"(KAFSCALE_S3_[A-Z0-9_]*TIMEOUT[A-Z0-9_]*)"', src))
+        if os.path.basename(fn) == "s3_dual.go":
+            names.update(re.findall(r'"(KAFSCALE_[A-Z0-9_]+)"', src))
+    return {n: "100" for n in sorted(names)}
+
+
+def start_slow(ck, binary):
+    """the two slow-replica runs, each in its own harness process, started now and joined at the end of run()"""
+    jobs = []
+    for tag, opline, envs in (("default", "slow 50,2500,6000,12000", {}), ("knobs", "slow 20,400,1500,3000", timeout_knobs())):
+        fn = ck.path("ops_slow_%s.txt" % tag)
+        open(fn, "w").write(opline + "\n")
+        box = {}
+
+        def work(fn=fn, envs=envs, box=box):
+            env = {"VERIF_HARNESS": "C44"}
+            env.update(envs)
+            rc, out, err = ck.run_bin(binary, stdin_path=fn, env=env, timeout=120)
+            box["impl"] = out.split("\n")[:-1]
+            if rc != 0 or len(box["impl"]) != 1:
+                box["crash"] = "impl rc=%s %s" % (rc, err[-500:])
+        th = threading.Thread(target=work, daemon=True)
+        th.start()
+        jobs.append((tag, th, box, opline, envs))
+    return jobs
 
 
 def run_lines(ck, binary, ops, tag):
@@ -386,6 +501,7 @@ def run(ck):
         return
     binary = bins["broker"]
     q = ck.quick()
+    slow_jobs = start_slow(ck, binary)          # runs concurrently with everything below (≈12 s wall)
     ck.cov["rule"] = ("a case = one history of ~80 ops over 6 objects (uploads/deletes/reads/lists through the dual client, replication "
                       "events, replica/primary faults); 'safe' histories never change/delete an object the replica holds, 'unsafe' ones do; "
                       "non-trivial: at least one read answered by the replica AND one fallback to the primary; distinct = distinct op lists")
@@ -407,6 +523,12 @@ def run(ck):
                    "popfail UploadIndex once", "upidx 3 0c", "rdidx 3", "upidx 3 0c", "rdidx 3",
                    "popfail DeleteIndex once", "delidx 3", "rdidx 3", "delidx 3", "rdidx 3",
                    "popfail EnsureBucket once", "ensure", "ensure", "ropfail ListSegments always", "popfail ListSegments once", "list", "list"], True))
+    # error classes: the replica lags on index 1 (not found), the primary's read of it fails transiently — the dual error must be
+    # classified like the primary's (not as not-found); missing on both = not-found; failing replica + missing primary = not-found;
+    # a bad range is not not-found
+    cases.append((["new", "upidx 1 0a0b", "upseg 1 010203", "pfail 1 1", "rdidx 1", "rdseg 1", "rdseg 1 0 1", "replidx 1", "rdidx 1", "pfail 1 0",
+                   "rdidx 1", "rdidx 2", "rdseg 2", "rfail 2 1", "rdidx 2", "rdseg 2", "upseg 3 0102", "rdseg 3 5 9", "replseg 3", "rdseg 3 5 9",
+                   "upidx 4 0c", "rfail 4 1", "pfail 4 1", "rdidx 4"], True))
     for i in range(60 if q else 600):
         cases.append((gen_history(ck.rng.fork(), 80 if q else 200, True), True))
     for i in range(20 if q else 200):
@@ -428,6 +550,11 @@ def run(ck):
         ck.count("reads_served_by_replica", rep_hits); ck.count("reads_falling_back_to_primary", fallbacks)
         ck.count("range_reads", sum(1 for x in ops if x.startswith("rdseg") and len(x.split()) == 4))
         ck.count("histories_safe" if safe else "histories_unsafe")
+        for o in io:
+            if " cls=" in o and o.startswith("err") and " pri=err" in o:
+                ck.count("reads_failing_on_both_sides")
+                if ",w.Download" in o and " pcls=other" in o:
+                    ck.count("reads_failing_on_both_sides_primary_transient")
         ck.count("concurrent_read_batches", sum(1 for x in ops if x.startswith("conc ")))
         fsim, nfault, nlag, nwerr = Sim(), 0, 0, 0
         for x in ops:
@@ -486,22 +613,22 @@ def run(ck):
         for (fp, what) in restore_violations(rs_impl[0]):
             ck.violation(fp, what, {"ops": ["restore"], "impl": rs_impl[0]})
         ck.count("restore_attempts_under_primary_list_fault", 4)
-    # replicas that stall for 2.5 s (slow to fail / slow to answer) under a 20 s caller deadline
-    sl_impl, _, crash = run_lines(ck, binary, ["slow"], "slow")
-    if crash or not sl_impl[0].startswith("slow "):
-        ck.broke("slow-replica scenario did not run", crash or sl_impl[0])
-    else:
-        ck.case(("slow", sl_impl[0]), sample={"op": "slow", "impl": sl_impl[0]})
+    # replicas that stall 50 ms … 12 s (slow to fail / hang then fail / slow to answer an equal copy) under a 30 s caller deadline,
+    # once with the environment as it is and once with every KAFSCALE_S3_*TIMEOUT* knob of the current source set to 100 ms
+    if ck.cov["distribution"].get("reads_failing_on_both_sides_primary_transient", 0) == 0:
+        ck.broke("generator", "no read was generated in which the replica does not deliver and the primary fails transiently")
+    for tag, th, box, opline, envs in slow_jobs:
+        th.join()
+        sl_impl, crash = box.get("impl"), box.get("crash")
+        if crash or not sl_impl or not sl_impl[0].startswith("slow "):
+            ck.broke("slow-replica scenario (%s) did not run" % tag, crash or (sl_impl[0] if sl_impl else "no output"))
+            continue
+        ck.case((opline, tag, sl_impl[0]), sample={"op": opline, "env": envs, "impl": sl_impl[0]})
         ck.cov["traces_validated_against_impl"] += 1
-        for part in sl_impl[0].split()[1:]:
-            name, rest = part.split("=", 1)
-            res, pri = rest.split("/")
-            ck.count("slow_replica_reads")
-            if res != pri:
-                ck.violation("slow-replica-read-does-not-fall-back-to-primary",
-                             "replica stalls 2.5 s (%s) under a 20 s caller deadline: dual read %s, the primary holds %s" % (
-                                 {"a": "slow to fail, range read", "b": "slow to fail, index", "c": "hangs then fails", "d": "slow to answer"}.get(name, name), res, pri),
-                             {"ops": ["slow"], "impl": sl_impl[0]})
+        ck.count("timeout_env_knobs_found_in_source", len(envs) if tag == "knobs" else 0)
+        for fp, what in slow_violations(sl_impl[0], envs):
+            ck.violation(fp, what, {"ops": [opline], "env": envs, "impl": sl_impl[0]})
+        ck.count("slow_replica_reads", len(sl_impl[0].split()) - 1)
     ck.partial = ("reads match the primary is proved for replication-safe histories (the primary never changes or deletes an object the "
                   "replica already holds); for a replica lagging behind an overwrite/delete the statement is false (witness theorems) — known finding")
 
@@ -513,9 +640,14 @@ def replay(ck, path):
     if bins is None:
         return
     ops = rep["ops"]
-    impl, _, crash = run_lines(ck, bins["broker"], ops, "replay")
-    if crash:
-        ck.broke("replay harness", crash)
+    fn = ck.path("ops_replay.txt")
+    open(fn, "w").write("\n".join(ops) + "\n")
+    env = {"VERIF_HARNESS": "C44"}
+    env.update(rep.get("env") or {})
+    rc, out, err = ck.run_bin(bins["broker"], stdin_path=fn, env=env)
+    impl = out.split("\n")[:-1]
+    if rc != 0 or len(impl) != len(ops):
+        ck.broke("replay harness", "impl rc=%s answered %d/%d lines %s" % (rc, len(impl), len(ops), err[-500:]))
         return
     for o, r in zip(ops, impl):
         print("  %-40s -> %s" % (o[:40], r[:160]))
@@ -525,10 +657,8 @@ def replay(ck, path):
         ck.violation(fp, what, {"ops": ops, "actual": what})
     for o in impl:
         if o.startswith("slow "):
-            for part in o.split()[1:]:
-                res, pri = part.split("=", 1)[1].split("/")
-                if res != pri:
-                    ck.violation("slow-replica-read-does-not-fall-back-to-primary", "slow scenario: %s" % part, {"ops": ops, "impl": o})
+            for fp, what in slow_violations(o, rep.get("env") or {}):
+                ck.violation(fp, what, {"ops": ops, "env": rep.get("env") or {}, "impl": o})
         if o.startswith("restore want="):
             for (fp, what) in restore_violations(o):
                 ck.violation(fp, what, {"ops": ops, "impl": o})
